@@ -39,6 +39,8 @@ func c18Pool(thorough bool) []c18Val {
 		vs = append(vs, c18Val{fmt.Sprintf("%g", float64(h)/2) + map[bool]string{true: ".0", false: ""}[h%2 == 0], fmt.Sprintf("f0_%d", h), "flt", fmt.Sprint(h), 0})
 	}
 	vs = append(vs, c18Val{"MyFloat.new(2.5)", "f1_5", "flt", "5", 1}, c18Val{"MyFloat.new(0.0)", "f1_0", "flt", "0", 1})
+	// negative zero: the same number as 0.0 in == and in the order
+	vs = append(vs, c18Val{"(0.0 * -1.0)", "f0_0", "flt", "0", 0}, c18Val{"MyFloat.new(0.0 * -1.0)", "f1_0", "flt", "0", 1})
 	for _, s := range []string{"", "a", "b", "ab", "B"} {
 		vs = append(vs, c18Val{fmt.Sprintf("%q", s), "s0_" + s, "str", s, 0})
 	}
@@ -51,7 +53,8 @@ func c18Pool(thorough bool) []c18Val {
 		c18Val{src: "{a: {b: nil}}", enc: "{a={b=n}}"}, c18Val{src: "{a: true}", enc: "{a=T}"}, c18Val{src: "{_p: 1}", enc: "{_p=i0_1}"},
 	)
 	// outside the modelled core: direct laws only
-	for _, s := range []string{"%{}", "%{1: 2}", "%{[1]: 'a, 2: 3}", "(1:2)", "(1:2:3)", "(nil:nil)", "fn1", "fn2", "1.try", "2.try", "\"a\".try", "{a: 1}.bear", "{a: 1}.bear({b: 2})", "MyArr.new([1])", "[1.try]",
+	for _, s := range []string{"%{}", "%{1: 2}", "%{[1]: 'a, 2: 3}", "%{[1]: 1}", "%{1: 2, [1]: 1}", "%{1: 2, {x: 1}: 3}", "%{'a: 1}", "%{'a: 1, []: 2}", "%{2: 3, [1]: 'a}",
+		"(1:2)", "(1:2:3)", "(nil:nil)", "fn1", "fn2", "1.try", "2.try", "\"a\".try", "{a: 1}.bear", "{a: 1}.bear({b: 2})", "MyArr.new([1])", "[1.try]",
 		"{|x| x}", "<{|i| yield i}>", "1.try.fmap {|x| x / 0}", "\"x\".try.fmap {|x| x.nonexistent}"} {
 		vs = append(vs, c18Val{src: s})
 	}
